@@ -505,4 +505,186 @@ theorem nearestDec_shift (prec : Nat) (emin emaxE : Int) (n : Nat) (nd : Int) :
       grind
 
 
+/-! ### the three positions of the rounded value relative to the decade of `x` (pure arithmetic) -/
+
+theorem digits_range (Dx B G : Nat) (hB : 0 < B) (h1 : G * B ≤ Dx) (h2 : Dx < 10 * G * B) :
+    G ≤ divHE Dx B ∧ divHE Dx B ≤ 10 * G ∧ 2 * absdiff (divHE Dx B * B) Dx ≤ B := by
+  obtain ⟨s1, s2, _⟩ := divHE_spec Dx B hB
+  refine ⟨le_divHE _ _ _ hB h1, divHE_le _ _ _ hB (by omega), ?_⟩
+  unfold absdiff; omega
+
+/-- (a) inside the decade: the digits are those of `x` -/
+theorem pos_inside (Dx Dy B : Nat) (hB : 0 < B)
+    (h3 : absdiff (divHE Dx B * B) Dy ≤ absdiff (divHE Dx B * B) Dx) : divHE Dy B = divHE Dx B := by
+  apply divHE_closer _ _ _ hB
+  unfold absdiff at h3
+  omega
+
+/-- (b) at or above the next power of ten -/
+theorem pos_above (Dx Dy B G : Nat) (hB : 0 < B) (h1 : G * B ≤ Dx) (h2 : Dx < 10 * G * B)
+    (h3 : absdiff (divHE Dx B * B) Dy ≤ absdiff (divHE Dx B * B) Dx) (hy : 10 * G * B ≤ Dy) :
+    divHE Dx B = 10 * G ∧ divHE Dy (10 * B) = G ∧ Dy < 100 * G * B := by
+  obtain ⟨f1, f2, f3⟩ := digits_range Dx B G hB h1 h2
+  generalize divHE Dx B = n0 at *
+  have hn : n0 = 10 * G := by
+    apply Nat.le_antisymm f2
+    apply Nat.le_of_not_lt
+    intro hlt
+    have := succ_mul_le (b := B) hlt
+    unfold absdiff at h3 f3
+    omega
+  subst hn
+  unfold absdiff at h3 f3
+  refine ⟨rfl, ?_, ?_⟩
+  · apply divHE_unique _ _ _ (by omega)
+    · have : G * (10 * B) = 10 * G * B := by grind
+      omega
+    · have : G * (10 * B) = 10 * G * B := by grind
+      omega
+    · intro h
+      have : G * (10 * B) = 10 * G * B := by grind
+      omega
+  · have hG : 10 * G * B * 1 ≤ 10 * G * B * 10 := Nat.mul_le_mul_left _ (by decide)
+    have : 100 * G * B = 10 * G * B * 10 := by grind
+    have hpos : 0 < 10 * G * B ∨ 10 * G * B = 0 := by omega
+    omega
+
+/-- (c) below the power of ten `x` sits on: only when the rounding fell just short of it -/
+theorem pos_below (Dx Dy B' G M : Nat) (hB : 0 < B') (hG : 0 < G) (h1 : G * (10 * B') ≤ Dx) (h2 : Dx < 10 * G * (10 * B'))
+    (h3 : absdiff (divHE Dx (10 * B') * (10 * B')) Dy ≤ absdiff (divHE Dx (10 * B') * (10 * B')) Dx)
+    (hy : Dy < G * (10 * B'))
+    (h4 : 2 * absdiff (divHE Dx (10 * B') * (10 * B')) Dy * M ≤ Dy) (h5 : 20 * G ≤ 2 * M) :
+    divHE Dx (10 * B') = G ∧ divHE Dy B' = 10 * G ∧ G * B' ≤ Dy := by
+  obtain ⟨f1, f2, f3⟩ := digits_range Dx (10 * B') G (by omega) h1 h2
+  generalize divHE Dx (10 * B') = n0 at *
+  have hn : n0 = G := by
+    apply Nat.le_antisymm _ f1
+    apply Nat.le_of_not_lt
+    intro hlt
+    have := succ_mul_le (b := 10 * B') hlt
+    unfold absdiff at h3 f3
+    omega
+  subst hn
+  -- the distance to the power of ten, D = G·10B' − Dy
+  have hD : absdiff (n0 * (10 * B')) Dy = n0 * (10 * B') - Dy := by unfold absdiff; omega
+  rw [hD] at h4
+  generalize hDd : n0 * (10 * B') - Dy = D at *
+  have hDy : Dy + D = n0 * (10 * B') := by omega
+  -- 2·D·M ≤ Dy < 10·G·B'  and  20 G ≤ 2 M  give  2·D < B'
+  have h6 : 2 * D * (10 * n0) ≤ 2 * D * M := by
+    apply Nat.mul_le_mul_left; omega
+  have h7 : 2 * D * (10 * n0) < n0 * (10 * B') := by omega
+  have h8 : 2 * D < B' := by
+    apply Nat.lt_of_mul_lt_mul_right (a := 10 * n0)
+    calc 2 * D * (10 * n0) < n0 * (10 * B') := h7
+      _ = B' * (10 * n0) := by grind
+  have e1 : 10 * n0 * B' = n0 * (10 * B') := by grind
+  refine ⟨rfl, ?_, ?_⟩
+  · apply divHE_unique _ _ _ hB
+    · omega
+    · omega
+    · intro h; omega
+  · have : n0 * B' * 1 ≤ n0 * B' * 9 := Nat.mul_le_mul_left _ (by decide)
+    have e2 : n0 * (10 * B') = n0 * B' * 9 + n0 * B' := by grind
+    have hnb : B' ≤ n0 * B' := Nat.le_mul_of_pos_left _ hG
+    omega
+
+
+set_option exponentiation.threshold 5000
+
+/-- normal doubles of moderate magnitude: `2^52 ≤ m < 2^53`, `-1000 ≤ e ≤ 960` -/
+def wfn (m : Nat) (e : Int) : Prop := 2 ^ 52 ≤ m ∧ m < 2 ^ 53 ∧ -1000 ≤ e ∧ e ≤ 960
+
+theorem pow_facts : (2 : Nat) ^ 948 ≤ 10 ^ 286 ∧ (2 : Nat) ^ 1024 ≤ 10 ^ 309 ∧ 20 * 10 ^ 12 ≤ (2 : Nat) ^ 53 := by
+  refine ⟨by decide +kernel, by decide +kernel, by decide +kernel⟩
+
+/-- the decimal exponent of a normal double lies between -286 and 308 -/
+theorem kbounds (m : Nat) (e : Int) (h : wfn m e) : -286 ≤ floorLog10 m e ∧ floorLog10 m e ≤ 308 := by
+  obtain ⟨h1, h2, h3, h4⟩ := h
+  have hm0 : m ≠ 0 := by
+    intro h0; subst h0
+    have := two_pow_pos 52; omega
+  obtain ⟨s1, s2⟩ := floorLog10_spec m e hm0 h2 (by omega) (by omega)
+  have eU : (-(-1074 : Int)).toNat = 1074 := by decide
+  constructor
+  · -- GE (-286)
+    apply Classical.byContradiction
+    intro hlt
+    apply s2
+    have hge : GE (2 ^ (-(-1074 : Int)).toNat) (units (-1074) m e) (-286) := by
+      unfold GE
+      have z1 : ((-286 : Int)).toNat = 0 := by decide
+      have z2 : (-(-286 : Int)).toNat = 286 := by decide
+      rw [z1, z2, Nat.pow_zero, Nat.mul_one, eU]
+      unfold units
+      have hE : 74 ≤ (e - (-1074)).toNat := by omega
+      have a1 : 2 ^ 52 * 2 ^ 74 ≤ m * 2 ^ (e - (-1074)).toNat :=
+        Nat.mul_le_mul h1 (Nat.pow_le_pow_right (by decide) hE)
+      have a2 : (2 : Nat) ^ 1074 = 2 ^ 52 * 2 ^ 74 * 2 ^ 948 := by rw [← Nat.pow_add, ← Nat.pow_add]
+      rw [a2]
+      exact Nat.mul_le_mul a1 pow_facts.1
+    have : (-286 : Int) = floorLog10 m e + 1 + ((-286 - floorLog10 m e - 1).toNat : Int) := by omega
+    rw [this] at hge
+    exact GE_mono_le _ _ _ _ hge
+  · apply Classical.byContradiction
+    intro hgt
+    have hge : GE (2 ^ (-(-1074 : Int)).toNat) (units (-1074) m e) 309 := by
+      have : floorLog10 m e = 309 + ((floorLog10 m e - 309).toNat : Int) := by omega
+      rw [this] at s1
+      exact GE_mono_le _ _ _ _ s1
+    unfold GE at hge
+    have z1 : ((309 : Int)).toNat = 309 := by decide
+    have z2 : (-(309 : Int)).toNat = 0 := by decide
+    rw [z1, z2, Nat.pow_zero, Nat.mul_one, eU] at hge
+    unfold units at hge
+    have hE : (e - (-1074)).toNat ≤ 2034 := by omega
+    have a1 : m * 2 ^ (e - (-1074)).toNat < 2 ^ 53 * 2 ^ 2034 :=
+      Nat.lt_of_lt_of_le (Nat.mul_lt_mul_of_pos_right h2 (two_pow_pos _))
+        (Nat.mul_le_mul_left _ (Nat.pow_le_pow_right (by decide) hE))
+    have a2 : (2 : Nat) ^ 53 * 2 ^ 2034 ≤ 2 ^ 1074 * 2 ^ 1024 := by
+      rw [← Nat.pow_add, ← Nat.pow_add]; exact Nat.pow_le_pow_right (by decide) (by decide)
+    have a3 : (2 : Nat) ^ 1074 * 2 ^ 1024 ≤ 2 ^ 1074 * 10 ^ 309 := Nat.mul_le_mul_left _ pow_facts.2.1
+    omega
+
+/-- the half-ulp bound on the common scale -/
+theorem halfulp_scaled (prec : Nat) (emin emaxE : Int) (n : Nat) (nd : Int) (m' : Nat) (e' : Int)
+    (hp : 1 ≤ prec) (hmin : emin ≤ 0) (h1 : -400 ≤ nd) (h2 : nd ≤ 400)
+    (h : nearestDec prec emin emaxE n nd = some (m', e')) :
+    2 * absdiff (n * (2 ^ (-emin).toNat * T (-nd))) (units emin m' e' * 10 ^ 400) * m' ≤ units emin m' e' * 10 ^ 400 := by
+  unfold nearestDec at h
+  have hps := pow_split nd h1 h2
+  by_cases hnd : nd ≥ 0
+  · simp only [hnd, if_true] at h
+    have hh := nearestG_halfulp prec emin emaxE _ _ m' e' hp hmin (ten_pow_pos _) h
+    have z : (-nd).toNat = 0 := by omega
+    rw [z, Nat.pow_zero, Nat.mul_one] at hps
+    have h3 := Nat.mul_le_mul_right (T (-nd)) hh
+    have e1 : n * 2 ^ (-emin).toNat * T (-nd) = n * (2 ^ (-emin).toNat * T (-nd)) := Nat.mul_assoc _ _ _
+    have e2 : units emin m' e' * 10 ^ nd.toNat * T (-nd) = units emin m' e' * 10 ^ 400 := by
+      rw [Nat.mul_assoc, hps]
+    have e3 : 2 * absdiff (n * 2 ^ (-emin).toNat) (units emin m' e' * 10 ^ nd.toNat) * m' * T (-nd) =
+        2 * (absdiff (n * 2 ^ (-emin).toNat) (units emin m' e' * 10 ^ nd.toNat) * T (-nd)) * m' := by grind
+    rw [e3, ← absdiff_mul, e1, e2] at h3
+    exact h3
+  · simp only [hnd, if_false] at h
+    have hh := nearestG_halfulp prec emin emaxE _ 1 m' e' hp hmin (by decide) h
+    simp only [Nat.mul_one] at hh
+    have z : nd.toNat = 0 := by omega
+    rw [z, Nat.pow_zero, Nat.one_mul] at hps
+    have h3 := Nat.mul_le_mul_right (10 ^ 400) hh
+    have e1 : n * 10 ^ (-nd).toNat * 2 ^ (-emin).toNat * 10 ^ 400 = n * (2 ^ (-emin).toNat * T (-nd)) := by
+      rw [hps]
+      generalize 2 ^ (-emin).toNat = U
+      generalize 10 ^ (-nd).toNat = B
+      generalize (10 : Nat) ^ 400 = S
+      grind
+    have e3 : 2 * absdiff (n * 10 ^ (-nd).toNat * 2 ^ (-emin).toNat) (units emin m' e') * m' * 10 ^ 400 =
+        2 * (absdiff (n * 10 ^ (-nd).toNat * 2 ^ (-emin).toNat) (units emin m' e') * 10 ^ 400) * m' := by
+      generalize absdiff (n * 10 ^ (-nd).toNat * 2 ^ (-emin).toNat) (units emin m' e') = A
+      generalize (10 : Nat) ^ 400 = S
+      grind
+    rw [e3, ← absdiff_mul, e1] at h3
+    exact h3
+
+
 end Proofs.FloatE
